@@ -9,6 +9,7 @@ class Result:
         self.discarded = False     # numerically singular / ill-posed case: not a verdict
         self.excluded = []         # known-finding classes this case was steered away from (counted)
         self.worst = {}            # sub-oracle -> worst scaled residual seen (for the evidence)
+        self.units = 1             # elementary evaluations inside this case (e.g. values of r)
 
     def fail(self, bucket, msg, mag=None, known=None):
         self.failures.append(Failure(bucket, msg, mag, known))
